@@ -227,7 +227,7 @@ func checkLoaded(wd gmars.WarriorData, cfg gen.AsmConfig) string {
 		return fmt.Sprintf("entry point %d outside code of length %d", wd.Start, len(wd.Code))
 	}
 	for i, ins := range wd.Code {
-		if int64(ins.A) >= cfg.CoreSize || int64(ins.B) >= cfg.CoreSize || ins.A > 1<<62 || ins.B > 1<<62 {
+		if int64(ins.A) >= cfg.CoreSize || int64(ins.B) >= cfg.CoreSize || uint64(ins.A) > 1<<62 || uint64(ins.B) > 1<<62 {
 			return fmt.Sprintf("instruction %d has a field >= core size %d: %v", i, cfg.CoreSize, ins)
 		}
 		r, ok := hx.FromG(ins)
